@@ -1350,7 +1350,7 @@ def search(r):
     rng = r.rng
     r.tier_backup = r.tier
     targeted = []
-    targeted += [gen_natural(rng, t) for t in ("f32x", "bigint", "fallback-sampled", "sampled") for _ in range(150)]
+    targeted += [gen_natural(rng, t) for t in ("f32x", "bigint", "fallback-sampled", "sampled", "offset", "offset") for _ in range(150)]
     targeted += [gen_quantile(rng, k) for k in QUANTILE_KS for _ in range(6)]
     targeted += [gen_reclass(rng, edges=True) for _ in range(400)]
     targeted += [gen_equal_interval(rng) for _ in range(300)] + [gen_reclass(rng, edges=False) for _ in range(400)]
